@@ -9,6 +9,8 @@ package metrics
 // when the section began, and the kept samples are the old ones, unchanged and in order.
 //@ func slidingWindow.cleaner@tick
 //@ region for#0/select#0/case#0
+// ... and a tick never ends the cleaner: samples added later must expire, too (the goroutine only stops on request)
+//@ flag noreturn on
 //@ ghostret k int = newstartidx
 //@ modifies sw
 //@ ensures[len] 0 <= k && k <= old(len(sw.samples)) && len(sw.samples) == old(len(sw.samples)) - k
@@ -33,9 +35,16 @@ package metrics
 //@ ensures[vals] forall(j, 0, len(result), result[j] == sw.samples[j].Value)
 //@ loop 0 invariant 0 <= idx && idx <= len(sw.samples) && len(samples) == len(sw.samples) && fresh(samples) && forall(j, 0, idx, samples[j] == sw.samples[j].Value)
 
+// A window and its cleaner are created together: every window that exists has a cleaner goroutine from the start
+// (gostarted counts the goroutines started).
+//@ ghostvar gostarted nat
+//@ func newWindow
+//@ ensures[ok] sampleLifetime != 0 ==> err == nil && result0 != nil && fresh(result0) && len(result0.samples) == 0 && result0.sampleLifetime == sampleLifetime
+//@ ensures[zero] sampleLifetime == 0 ==> err != nil && result0 == nil
 //@ func newSlidingWindow
-//@ trusted
-//@ ensures err == nil ==> result0 != nil && fresh(result0)
+//@ updates gostarted
+//@ ensures[window] err == nil ==> result0 != nil && fresh(result0) && gostarted == old(gostarted) + 1
+//@ ensures[fail] err != nil ==> result0 == nil && gostarted == old(gostarted)
 
 // AddSample (C19): the window of a key is looked up and, if missing, created AND registered inside one
 // critical section of wlock, and the sample is added before the lock is released — so concurrent first
